@@ -93,6 +93,7 @@ def axiom_audit(pid):
 # ---------------------------------------------------------------- running ops
 
 IMPL_CMD = None      # per-property override of the implementation side
+REF_CMD = None       # C19: the reference implementation (Go library) the implementation (C++ port) must equal
 
 
 def _run_chunk(args):
@@ -101,8 +102,11 @@ def _run_chunk(args):
     with open(opsf, "w") as fh:
         fh.write("\n".join(ops) + "\n")
     res = []
-    for exe, name in ((HARNESS, "impl"), (DRIVER, "model")):
-        cmd = (IMPL_CMD or [exe, "run"]) if name == "impl" else [exe]
+    procs = [(HARNESS, "impl"), (DRIVER, "model")]
+    if REF_CMD:
+        procs.append((None, "ref"))
+    for exe, name in procs:
+        cmd = (IMPL_CMD or [exe, "run"]) if name == "impl" else (REF_CMD if name == "ref" else [exe])
         try:
             with open(opsf) as fin:
                 p = subprocess.run(cmd, stdin=fin, stdout=subprocess.PIPE, stderr=subprocess.PIPE,
@@ -133,16 +137,19 @@ def run_ops(ops, rundir, timeout=600):
     size = (len(ops) + nchunks - 1) // nchunks
     chunks = [(i, ops[i * size:(i + 1) * size], rundir, timeout) for i in range(nchunks)]
     chunks = [c for c in chunks if c[1]]
-    impl, model = [], []
+    impl, model, ref = [], [], []
     with concurrent.futures.ThreadPoolExecutor(max_workers=NPROC) as ex:
         results = sorted(ex.map(_run_chunk, chunks), key=lambda r: r[0])
     for (idx, res), c in zip(results, chunks):
         n = len(c[1])
-        for (lines, tail), dst in zip(res, (impl, model)):
+        for (lines, tail), dst in zip(res, (impl, model, ref)):
             if len(lines) < n:
                 reason = tail.strip().split("\n")[-1][:200] if tail else "short-output"
                 lines = lines + [f"<missing:{reason}>"] + ["<missing:after-crash>"] * (n - len(lines) - 1)
             dst.extend(lines[:n])
+    if REF_CMD:
+        # the model line carries the reference implementation's answer as a fifth/sixth column
+        model = [m + "\tR\t" + r for m, r in zip(model, ref)]
     return impl, model
 
 
@@ -159,6 +166,8 @@ def parse_obs(s):
 def judge(impl, model_line):
     """-> (corr_ok, prop_ok, detail)"""
     parts = model_line.split("\t")
+    if len(parts) == 6 and parts[4] == "R":
+        return judge3(impl, parts[1], parts[3], parts[5])
     if len(parts) != 4 or parts[0] != "M" or parts[2] != "S":
         return False, True, "model-output-malformed: " + model_line[:200]
     M, S = parts[1], parts[3]
@@ -176,6 +185,29 @@ def judge(impl, model_line):
         if Id.get(k) != v:
             return corr_ok, False, f"field {k}: implementation={Id.get(k)!r} specification={v!r}"
     return corr_ok, True, "" if corr_ok else "implementation differs from model (outside the specified fields)"
+
+
+def judge3(impl, M, S, ref):
+    """C19. impl = the C++ port, ref = the Go library (both real), M = model of the port,
+    S = model of the Go library on the fields inside the property's domain ('-' = outside).
+    property: impl == ref on S's fields; correspondence: impl == M and ref == S on S's fields."""
+    if impl == "<missing:after-crash>" or ref == "<missing:after-crash>":
+        return True, True, ""
+    skip = (M == "skip=1")
+    for side, out in (("C++ port", impl), ("Go library", ref)):
+        if out.startswith("panic=") or out.startswith("<missing:") or out.startswith("setup="):
+            return False, (S == "-"), f"{side} crashed, hung or could not set up: {out[:200]}"
+    corr_ok = skip or (impl == M)
+    if S == "-":
+        return corr_ok, True, "" if corr_ok else "C++ port differs from its model (outside the property's domain)"
+    Sd, Id, Rd = parse_obs(S), parse_obs(impl), parse_obs(ref)
+    for k in Sd:
+        if Id.get(k) != Rd.get(k):
+            return corr_ok, False, f"field {k}: C++ port={Id.get(k)!r} Go library={Rd.get(k)!r}"
+    for k, v in Sd.items():
+        if Rd.get(k) != v:
+            return False, True, f"Go library differs from its model in field {k}: {Rd.get(k)!r} vs {v!r}"
+    return corr_ok, True, "" if corr_ok else "C++ port differs from its model"
 
 
 # ---------------------------------------------------------------- known findings
@@ -258,6 +290,16 @@ def build_handles(a, rundir):
     return []
 
 
+def build_cpp(a, rundir):
+    """C19: rebuild the C++ port and the protocol driver from /repo/cpp"""
+    rc, out = sh([os.path.join(VERIF, "cppdriver", "build.sh"), REPO, os.path.join(BUILD, "cpp")], timeout=900)
+    if rc != 0:
+        log(out[-3000:])
+        return [("build", "g++ /repo/cpp + cppdriver", out[-1500:])]
+    return []
+
+
+props.HOOKS["build_cpp"] = build_cpp
 props.HOOKS["build_handles"] = build_handles
 props.HOOKS["build_racer"] = build_racer
 props.HOOKS["build_clis"] = build_clis
@@ -316,8 +358,9 @@ def main(argv):
         log(out)
         log("harness does not build against /repo")
         broken.append(("build", "go build harness", out[-1500:]))
-    global IMPL_CMD
+    global IMPL_CMD, REF_CMD
     IMPL_CMD = cfg.get("impl_cmd")
+    REF_CMD = cfg.get("ref_cmd")
     for hook in cfg.get("pre", []):
         if isinstance(hook, str):
             hook = props.HOOKS[hook]
@@ -373,7 +416,7 @@ def main(argv):
         for op, i, m in zip(ops, impl, model):
             stats["evaluations"] += 1
             corr_ok, prop_ok, detail = judge(i, m)
-            if m.endswith("\tS\t-") is False:
+            if not (m.endswith("\tS\t-") or "\tS\t-\tR\t" in m):
                 stats["in_domain"] += 1
             h = hash(op)
             if h not in stats["distinct"]:
